@@ -3,7 +3,8 @@
    bridge "nothing renamed => no class applies". *)
 From Coq Require Import List Bool String ZArith NArith.
 From TS Require Import Model.Str Model.Outcome Model.Unicode Model.Types Model.Parse Model.Reconcile
-                       Model.Lang.Common Model.Lang.Decl Model.Lang.TypeScript Model.Lang.Kotlin Model.Lang.Scala Model.Lang.Go Spec.C09Spec.
+                       Model.Lang.Common Model.Lang.Decl Model.Lang.TypeScript Model.Lang.Kotlin Model.Lang.Scala Model.Lang.Go
+                       Model.Lang.Swift Model.Lang.Python Spec.C09Spec.
 From TS Require Import Proofs.C09Common Proofs.C09Recon.
 Import ListNotations.
 Local Open Scope string_scope.
@@ -111,6 +112,28 @@ Example C09_Kotlin_nonvacuous_ex :
   exists fd, kt_file_decls uc_exec w_kt (c09_reconciled w_clean) = Ok fd /\
              (8 <=? List.length (c9_refs (c09_observe Kotlin fd)))%nat = true /\ good_C09 Kotlin (lit "KP") w_clean (c09_observe Kotlin fd) = true.
 Proof. split; [vm_compute; reflexivity|]. split; [vm_compute; reflexivity|]. eexists. split; [vm_compute; reflexivity|]. split; vm_compute; reflexivity. Qed.
+
+(* the same program for the other five back ends: inside the domain, in no class, generated by the model
+   with at least 8 references, and judged good *)
+Definition w_sw : sw_config := {| sw_prefix := lit "OP"; sw_type_mappings := []; sw_default_decorators := []; sw_default_generic_constraints := [];
+                                  sw_codablevoid_constraints := []; sw_no_version_header := true; sw_version := [] |}.
+Definition w_py : py_config := {| py_type_mappings := []; py_no_version_header := true; py_version := [] |}.
+Definition c09_nonvacuous (L : lang) (pfx : str) (pd : parsed) (out : outcome file_decls) : bool :=
+  dom_C09 L pfx pd && match known_C09 L pfx [] pd with None => true | Some _ => false end &&
+  match out with
+  | Ok fd => (8 <=? List.length (c9_refs (c09_observe L fd)))%nat && good_C09 L pfx pd (c09_observe L fd)
+  | _ => false
+  end.
+Example C09_TypeScript_nonvacuous_ex : c09_nonvacuous TypeScript [] w_clean (ts_file_decls uc_exec w_ts (c09_reconciled w_clean)) = true.
+Proof. vm_compute. reflexivity. Qed.
+Example C09_Scala_nonvacuous_ex : c09_nonvacuous Scala [] w_clean (sc_file_decls uc_exec w_sc (c09_reconciled w_clean)) = true.
+Proof. vm_compute. reflexivity. Qed.
+Example C09_Python_nonvacuous_ex : c09_nonvacuous Python [] w_clean (py_file_decls uc_exec w_py (c09_reconciled w_clean)) = true.
+Proof. vm_compute. reflexivity. Qed.
+Example C09_Swift_nonvacuous_ex : c09_nonvacuous Swift (lit "OP") w_clean (sw_file_decls uc_exec w_sw (c09_reconciled w_clean)) = true.
+Proof. vm_compute. reflexivity. Qed.
+Example C09_Go_nonvacuous_ex : c09_nonvacuous Go [] w_clean (go_file_decls uc_exec (w_go []) (c09_reconciled w_clean)) = true.
+Proof. vm_compute. reflexivity. Qed.
 
 (* ---------------------------------------------------------------- nothing renamed => no class *)
 Lemma c09_first_all_none {A} (l : list (option A)) : (forall x, In x l -> x = None) -> c09_first l = None.
